@@ -1,6 +1,7 @@
 SPECIFICATION FairSpec
 CONSTANTS
   W = 4
+  Anns = {"both", "size", "hash", "none"}
   Sizes = {0, 1, 2, 5}
   MaxFaults = 1
   MaxInject = 1
